@@ -198,7 +198,7 @@ class World:
         xvm.sub = sub
         xvm.n = self.new("xvm.n")
         xvm.q = self.new("xvm.q")
-        for nm in ("l", "m", "len", "id"):
+        for nm in ("l", "m", "len", "zip"):
             setattr(xvm, nm, self.new("xvm." + nm))
         mods = {"xvm": xvm, "xvm.sub": sub}
         for nm in ("n", "l", "m"):
@@ -705,7 +705,7 @@ def _check(item):
 def _fake_bin(d):
     """executables named like every name the programs use: 'the command exists' is the adversarial
     situation for a Python-vs-command decision (nothing is ever launched - run_subproc is recorded)."""
-    for nm in ("n", "m", "l", "k", "len", "id", "z", "not", "def", "x"):
+    for nm in ("n", "m", "l", "k", "len", "zip", "z", "not", "def", "x"):
         p = os.path.join(d, nm)
         with open(p, "w") as f:
             f.write("#!/bin/sh\nexit 0\n")
